@@ -784,6 +784,13 @@ impl endpoint::Session for Session {
     ) -> Result<Option<SessionOutgoingItem>, Self::Error> {
         let outgoing_link_flow = self.on_incoming_flow_inner(flow).await?;
         let outgoing_session_flow = outgoing_link_flow
+            // The link may already have sent its detach (the peer's flow crossed it): the
+            // relay stays until the peer's detach arrives, but nothing more may be sent for
+            // the handle, not even the echo the flow asks for
+            .filter(|flow| {
+                self.link_name_by_output_handle
+                    .contains(flow.handle.0 as usize)
+            })
             .map(|flow| self.on_outgoing_flow(flow))
             .transpose()?;
 
